@@ -217,7 +217,7 @@ pub fn run(args: &Args) -> i32 {
         return crate::props::replay_file(ctx, path, replay);
     }
     let thorough = args.tier.thorough();
-    ctx.rule = "E-PROD. Writer side: passwords {empty, 'p', 'password', bytes 00 FF 80, 300 bytes} x 5 (thorough 6) content classes x {stored, deflate, bzip2, zstd} x position {only, first, last of 3}: the stored bytes must decrypt with an independent \
+    ctx.rule = "E-PROD. Writer side: passwords {empty, 'p', 'password', bytes 00 FF 80, 300 bytes} x 5 (thorough 6) content classes x {stored, deflate, bzip2, zstd} x position {only, first, last of 3 plain entries, last and middle of 3 entries encrypted through the same writer}: the stored bytes must decrypt with an independent \
         PKWARE cipher to data that decodes to the content with the recorded CRC (strict parser), CPython must read them with the password, the plaintext must not occur in the file, and the crate reader must return the content under 6 caller buffer sizes, refuse a missing password with the \
         password-required error (by index and by name) and never complete a read under a wrong password. Foreign side: builder-encrypted PKWARE entries and Info-ZIP style entries (bit 3, check byte from the time word, data descriptor) for every method; \
         256 contents chosen so that the CRC high byte (the check byte) takes every value 0..=255; 4096 wrong passwords per method, bucketed until every one of the 256 decrypted check-byte values has been seen. distinct_nontrivial = distinct (archive, password) pairs exercised (hash set)."
@@ -231,34 +231,49 @@ pub fn run(args: &Args) -> i32 {
 
     // writer side
     let variants: [(&str, bool, Option<u32>); 3] = [("secret", false, None), ("s\u{e9}cret-\u{fc}\u{2603}", false, Some(0o600)), ("dir/secret.large", true, None)];
-    let total = pws.len() * n_content * methods.len() * 3 * variants.len();
+    // positions: only / first of 3 / last of 3 (plain neighbours) / last of 3 and middle of 3 whose neighbours are encrypted
+    // with the same password through the same writer
+    const NPOS: usize = 5;
+    let total = pws.len() * n_content * methods.len() * NPOS * variants.len();
     let pws_r = &pws;
     let col = &collected;
     let s = par_for(total as u64, 2, |t, st| {
         let (ename, large, perm) = variants[t as usize % variants.len()];
         let t = t as usize / variants.len();
-        let pos = t % 3;
-        let m = methods[(t / 3) % 4];
-        let c = (t / 12) % n_content;
-        let pw = &pws_r[t / (12 * n_content)];
+        let pos = t % NPOS;
+        let m = methods[(t / NPOS) % 4];
+        let c = (t / (4 * NPOS)) % n_content;
+        let pw = &pws_r[t / (4 * NPOS * n_content)];
         let content = content_class(c, seed);
         let enc = FOpts { password: Some(pw.clone()), large, perm, ..FOpts::m(m) };
         let other = |n: &str| vec![Call::StartFile { name: n.into(), opts: FOpts::m(8) }, Call::Write(b"plain neighbour".to_vec())];
+        let other_enc = |n: &str, m2: u16| vec![Call::StartFile { name: n.into(), opts: FOpts { password: Some(pw.clone()), ..FOpts::m(m2) } }, Call::Write(b"an encrypted neighbour, an encrypted neighbour".to_vec())];
         let mut calls = vec![];
         let idx = match pos {
             0 => 0,
             1 => 0,
+            4 => 1,
             _ => 2,
         };
         if pos == 2 {
             calls.extend(other("n1"));
             calls.extend(other("n2"));
         }
+        if pos == 3 {
+            calls.extend(other_enc("e1", 0));
+            calls.extend(other_enc("e2", 8));
+        }
+        if pos == 4 {
+            calls.extend(other_enc("e1", 8));
+        }
         calls.push(Call::StartFile { name: ename.into(), opts: enc });
         calls.push(Call::Write(content.clone()));
         if pos == 1 {
             calls.extend(other("n1"));
             calls.extend(other("n2"));
+        }
+        if pos == 4 {
+            calls.extend(other_enc("e2", 0));
         }
         calls.push(Call::Finish);
         let (res, bytes) = exec(&calls, &[]);
